@@ -338,6 +338,9 @@ def run_job(job):
                 gs, ss = g.reset(gs); obs.append(canon_ss(ss))
                 for i in range(steps):
                     gs, ss = g.step(gs); obs.append(canon_ss(ss))
+                    if job.get("record_mid") is not None and i == job["record_mid"]:
+                        try: g.get_record()          # the user looks at the record while the episode is still running, then goes on
+                        except TypeError: pass
             elif drive == "override":
                 gs, ss = g.reset(gs); obs.append(canon_ss(ss))
                 for i in range(steps):
